@@ -102,7 +102,7 @@ class _partial_normalize:
     bound_note = BOUND
 
     def configs():
-        return [{"axis": ax, "inplace": ip, "dtype": t} for ax in (0, 1, "y") for ip in (False, True) for t in ("int64", "float64")]
+        return [{"axis": ax, "inplace": ip, "dtype": t} for ax in (0, 1, "y", "x") for ip in (False, True) for t in ("int64", "float64")]
 
     def inputs(b):
         c = b.cfg
